@@ -163,13 +163,22 @@ class BitsDom(ValueDomain):
             return v is not None and self.fn.type(v["t"]).get("k") in ("int", "uint")
         return False
 
+    failing = None       # a call element whose callee is taken to report a failure
+
     def call_value(self, call, st):
         f = call.get("fn") or ""
+        if self.failing is not None and call is self.failing:
+            return NONZERO
         if f == "ncmpii_error_mpi2nc":
             return NONZERO
         if f.startswith("MPI_"):
             return ZERO
         return TOP
+
+    def on_call(self, call, st, blk, idx):
+        if self.failing is not None and call is self.failing:
+            return st.set("$failed", ONE)
+        return st
 
     def on_elem(self, elem, st, blk, idx):
         if elem.get("k") == "ret":
@@ -247,6 +256,28 @@ def check_layers(ctx, prog, bits):
                      detail={"path": ex.describe_path(key), "exit_state": repr(st)})
         else:
             ctx.ok("R11.layers", inst, "%d successful exit state(s), bit %s on all" % (nok, want))
+        if badf is None:
+            # the same question with one callee at a time reporting a failure (a status that is only *possibly* non-zero above)
+            known = {f.name for f in prog.all_functions()}
+            targets = [c for b_, i_, e_ in fn.elements() for c in [strip(e_)]
+                       if isinstance(c, dict) and c.get("k") == "call" and c.get("fn") in known and c.get("fn") != "ncmpii_error_mpi2nc"
+                       and fn.type(c.get("t")).get("k") in ("int", "enum")]
+            for tc in targets:
+                d2 = BitsDom(fn, "ncp", "flags")
+                d2.failing = tc
+                ex2 = Explorer(fn, d2).run(State())
+                ctx.states += ex2.visited
+                for st, key in ex2.exits:
+                    r = st.get("$ret")
+                    if isinstance(r, AVal) and not r.may_be_zero() and st.has("$failed"):
+                        v = st.get(d2.fkey)
+                        k1, k0 = (v.k1, v.k0) if v is not None and v.kind == "bits" else (0, 0)
+                        if ((k1 & m) == m if want == "set" else (k0 & m) == m):
+                            badf = (st, key)
+                            ex = ex2
+                            break
+                if badf:
+                    break
         inst = "%s:%s:onfail" % (dname, bit)
         if badf:
             st, key = badf
